@@ -350,6 +350,12 @@ func (c *Ctx) mkUnion(in []Alt) Value {
 		}
 	}
 	if len(keys) == 0 {
+		// every guard is false: the value is unreachable; keep some value of the right shape
+		for _, al := range in {
+			if _, isU := al.v.(*Union); !isU && al.v != nil {
+				return al.v
+			}
+		}
 		return nil
 	}
 	if len(keys) == 1 {
